@@ -33,19 +33,25 @@ def install_hooks(ex):
         res = ex_.call(fn, [probe], {}, tmp, ctx)
         s2, val = res[-1]
         counted = any(o.kind == "object" and o.cls == "DiffRHS" and not _same(o.fields.get("nfev"), before.get(oid)) for oid, o in s2.heap.items())
+        owners = [oid for oid, o in s2.heap.items() if o.kind == "object" and o.cls == "DiffRHS" and not _same(o.fields.get("nfev"), before.get(oid))]
+        owner = owners[0] if len(owners) == 1 else None
         time_arg, fname = None, None
         if isinstance(val, LinComb) and len(val.terms) == 1:
             (atom, c), = val.terms.items()
             if atom.key[0] == "app" and len(atom.key) == 4 and atom.key[3] == probe:
                 fname, time_arg = atom.key[1], atom.key[2]
         return st.new_obj("JacobianWrapper", fields=dict(captured_time=time_arg, fn=fname, counted=counted, base_order=kwargs.get("base_order"),
-                                                         flat=kwargs.get("flat", False)))
+                                                         flat=kwargs.get("flat", False), owner=owner))
 
     def call_wrapper(ex_, st, ctx, args, kwargs):
         w = st.obj(args[0])
         return st.new_obj("FDResult", fields=dict(time=w.fields["captured_time"], fn=w.fields["fn"], y=args[1], counted=w.fields["counted"]))
 
     ex.inline.update(["DiffRHS.__call__", "DiffRHS.hook_jacobian_call", "DiffRHS.__init__"])
+    # every method of the class under verification is executed on its real text (a private helper a refactoring introduces included)
+    ci = ex.src.classes.get("DiffRHS")
+    if ci is not None:
+        ex.inline.update("DiffRHS." + m for m in ci.methods)
     ex.call_hooks["new:JacobianWrapper"] = new_wrapper
     ex.call_hooks["JacobianWrapper.__call__"] = call_wrapper
     ex.call_hooks["JacobianWrapper"] = new_wrapper
@@ -76,6 +82,9 @@ def mk_self(st, state, rhs_has_jac):
     elif state == "fd":
         w = st.new_obj("JacobianWrapper", fields=dict(captured_time=T, fn="rhs", counted=True, base_order=5, flat=False))
         f.update(_DiffRHS__jac_wrapped_rhs_order=5, _DiffRHS__jac_initialised=True, _DiffRHS__jac=w, _DiffRHS__jac_time=T, _DiffRHS__jac_is_wrapped_rhs=True)
+        ref = st.new_obj("DiffRHS", fields=f)
+        st.obj(w).fields["owner"] = ref.oid          # the wrapper's closure evaluates this very object (ghost: whose counted call it makes)
+        return ref
     return st.new_obj("DiffRHS", fields=f)
 
 
@@ -95,6 +104,8 @@ def inv_j(ex, st, ref, pc_state):
             return False, "finite-difference closure does not differentiate the right-hand side"
         if not w["counted"]:
             return False, "finite-difference closure calls the raw rhs: its evaluations bypass the nfev counter"
+        if w.get("owner") is not None and w.get("owner") != ref.oid:
+            return False, "the finite-difference closure evaluates another DiffRHS object's right-hand side (a wrapper shared with the object it was built for)"
         if tm is None or w["captured_time"] is None:
             return False, "cached time missing"
         if not _poly_eq_under(ex, st, w["captured_time"], tm):
